@@ -471,6 +471,42 @@ def random_rs(rng: random.Random, base_sets: list[dict]) -> dict:
     return rs
 
 
+def lookup_case(run: core.Run, jt: dict, stats: Counter) -> None:
+    """--lookup: an imported macro file found through a lookup path given relative to the working directory"""
+    import shutil
+    import tempfile
+    from .. import impl_es
+    files = {"lk/m.exps": "macro foo($n) {\n    if ($n == 1) { x($n); }\n    y();\n}\n"}
+    text = 'import "m.exps";\ndef 0 {\n    ~foo(1);\n    ~foo(2);\n    z();\n}\n'
+    d = tempfile.mkdtemp(prefix="c15_lk_", dir="/tmp")
+    try:
+        os.makedirs(os.path.join(d, "lk"))
+        for rel, txt in files.items():
+            with open(os.path.join(d, rel), "w") as fh:
+                fh.write(txt)
+        ref = impl_es.compile_text({"text": text, "file": os.path.join(d, "main.exps"), "lookup": [os.path.join(d, "lk")]})
+    finally:
+        shutil.rmtree(d, ignore_errors=True)
+    cc = impl_cli.cli_compile({"text": text, "files": files, "lookup": ["lk"]})
+    nolk = impl_cli.cli_compile({"text": text, "files": files})
+    rep = {"text": text, "files": files, "lookup": ["lk"], "rc": cc["rc"], "stderr": cc["stderr_last"], "stdout": cc["stdout"][:600]}
+    stats["lookup_case"] += 1
+    if "error" in ref:
+        run.notes.append(f"lookup case does not compile in-process: {ref}")
+        return
+    if cc["rc"] != 0:
+        run.violation("exit_nonzero_on_success", f"compile command with --lookup exits {cc['rc']} ({cc['stderr_last'][:120]}) although the compiler accepts the program", rep)
+        return
+    doc, perr = parse_stdout(cc["stdout"])
+    if perr or not isinstance(doc, dict) or doc_errors(doc):
+        run.violation("not_documented_structure", f"--lookup case: {perr or doc_errors(doc)[:2]}", rep)
+        return
+    for kind, what in info_oracle(doc, strip_rs(ref)) + jump_oracle(doc, strip_rs(ref), jt)[:2]:
+        run.violation(kind, "--lookup case: " + what, rep)
+    if nolk["rc"] == 0 or nolk["stdout"].strip():
+        run.violation("exit0_on_failure", "compile command without the lookup path exits 0 / prints output although the import cannot be resolved", dict(rep, lookup=[]))
+
+
 def pmap(pool: core.Pool, fn: str, args: list, chunk: int, timeout: float, default: dict) -> list:
     """pool.map over chunks; a chunk without an answer yields `default` for each of its elements"""
     chunks = [args[i:i + chunk] for i in range(0, len(args), chunk)]
@@ -503,6 +539,7 @@ def run(run: core.Run) -> int:
             c = {"text": corrupt(rng, p["text"]), "corrupted": True}
         cases.append(c)
     n_cli = len(CORPUS) + n_sub
+    lookup_case(run, jt, stats)
     pool = core.Pool(jobs)
     try:
         refs = escommon.compile_all(pool, [c["text"] for c in cases])
